@@ -20,7 +20,9 @@ Definition ojson (x : option (list (list (str * str)))) := match x with Some t =
 """
 
 ADVERSARIAL = ['q"uote', "com,ma", "ta\tb", "new\nline", "cr\rx", "<b>&amp;</b>", "a&b", "it's", "back\\slash", "\x01ctl", "\x1f", "\x7fdel",
-               "é", "日本語", "😀x", " lead", "trail ", '""', ",", "a,b\"c\nd", "semi;colon", "{curly}", "[sq]", "<td>", "&lt;", "%", "#", "=x", "-dash", "~"]
+               "é", "日本語", "😀x", " lead", "trail ", '""', ",", "a,b\"c\nd", "semi;colon", "{curly}", "[sq]", "<td>", "&lt;", "%", "#", "=x", "-dash", "~",
+               # a character that needs quoting next to multi-byte characters (an encoder that splits its output in the middle of a character loses the row)
+               'q"é', '"€"€', 'r"ж', "a,日本", 'é"', ",ü", '"😀', "ä,ö\"ü", "日\n本", 'ж,ж"ж']
 
 
 def gen_dir(ctx, idx, n):
@@ -213,15 +215,49 @@ def run(ctx):
         hres = h.batch(reqs)
         ex3 = ["emit_impl %s %s" % (COQ_FMT[f], glist([glist(["(%s, %s)" % (gstr(k), gstr(v)) for k, v in row], "(str * str)") for row in t], "(list (str * str))")) for f, t in tabs]
         res3 = coq_eval(COQ_HEADER, ex3, ctx.scratch, tag="c09h", shard=40)
+        mism = []
         for (f, t), hr, txt in zip(tabs, hres, res3):
             st["evaluations"] += 1
             v = parse_nested(txt)
             mo = "".join(map(chr, v)) if isinstance(v, list) else ""
             if hr.get("r") != mo:
-                ctx.violation("correspondence-mismatch", "ResultsWriter (%s) differs from model.Format.emit_impl" % f, input={"format": f, "table": t},
-                              observed=str(hr)[:300], model=mo[:300], concrete=False, correspondence="harness ResultsWriter vs model.FormatGen.emit_impl")
+                mism.append((f, t, hr, mo))
             else:
                 st["agreed"] += 1
+        # a table on which the real writer and the model differ: decode the REAL output with the format's decoder - if it does
+        # not give the table back, the table is a concrete failing input of the property itself (not just of the correspondence)
+        dexprs = []
+        for f, t, hr, mo in mism:
+            real = hr.get("r") if isinstance(hr.get("r"), str) else ""
+            ncol = len(t[0]) if t else 0
+            if f == "json":
+                dexprs.append("ojson (decode_json %s)" % gstr(real))
+            elif f == "csv":
+                dexprs.append("ostr (decode_csv %s)" % gstr(real))
+            elif f == "html":
+                dexprs.append("ostr (decode_html %s)" % gstr(real))
+            else:
+                sepc, endc = {"tabs": (9, 10), "lines": (10, 10), "list": (0, 0)}[f]
+                dexprs.append("ostr (decode_flat %d %d %d%%nat %s)" % (sepc, endc, ncol, gstr(real)))
+        dres = coq_eval(COQ_HEADER, dexprs, ctx.scratch, tag="c09m", shard=40) if dexprs else []
+        for (f, t, hr, mo), txt in zip(mism, dres):
+            ok, dec = parse_nested(txt)
+            if f == "json":
+                back = [[("".join(map(chr, k)), "".join(map(chr, v))) for k, v in row] for row in dec] if ok else None
+                want = [sorted((k, v) for k, v in row) for row in t]
+                same = ok and [sorted(r_) for r_ in back] == want
+            else:
+                back = [["".join(map(chr, v)) for v in row] for row in dec] if ok else None
+                want = [[v for _, v in row] for row in t]
+                clash = (f == "tabs" and any("\t" in v or "\n" in v for row in want for v in row)) or (f in ("lines",) and any("\n" in v for row in want for v in row)) or \
+                        (f in ("tabs", "lines", "list") and any(v == "" for row in want for v in row))
+                same = (ok and back == want) or clash or (f == "csv" and not want and not back)
+            if not same:
+                ctx.violation("impl-violates-spec", "ResultsWriter (%s): the output does not carry the table (decoder gives %s)" % (f, "nothing" if not ok else str(back)[:200]),
+                              input={"format": f, "table": t}, observed=str(hr)[:300])
+            else:
+                ctx.violation("correspondence-mismatch", "ResultsWriter (%s) differs from model.Format.emit_impl" % f, input={"format": f, "table": t},
+                              observed=str(hr)[:300], model=mo[:300], concrete=False, correspondence="harness ResultsWriter vs model.FormatGen.emit_impl")
     except Exception as e:
         ctx.notes.append("harness: fallback-binary-only (%s)" % str(e)[:200])
     from .common import replay_generic_known
